@@ -70,7 +70,9 @@ struct xcmc_session *xcmc_open(pid_t creator_pid, int64_t sock_ref)
 
     char path[PATH_MAX];
 
-    ctl_derive_path(ctl_dir, creator_pid, sock_ref, path, sizeof(path));
+    if (ctl_derive_path(ctl_dir, creator_pid, sock_ref, path,
+			sizeof(path)) < 0)
+	return NULL;
 
     int fd;
     
